@@ -469,7 +469,11 @@ static void compare(Result &res, const World &w, const Output &a, const Output &
             else tol = 1e-9 * (1 + sc);
             if (!(diff <= tol)) {
                 const char *clause = (cls == SWITCHED) ? "across-spgemm-switch-rounding" : "rounding";
-                res.fail(mk(same_nt ? "rounding-across-schedules" : "rounding-across-nt", w, clause, x.name, fmt("nt %d vs %d: |diff|=%.3g tol=%.3g", nta, ntb, diff, tol)));
+                Violation rv = mk(same_nt ? "rounding-across-schedules" : "rounding-across-nt", w, clause, x.name, fmt("nt %d vs %d: |diff|=%.3g tol=%.3g", nta, ntb, diff, tol));
+                // (a result that contains Inf / NaN has no rounding neighbourhood: named in the signature, see C09-emin-nonfinite-hierarchy)
+                bool fin = true; for (size_t q = 0; q < x.v.size() && fin; ++q) if (!std::isfinite(x.v[q])) fin = false; for (size_t q = 0; q < y.v.size() && fin; ++q) if (!std::isfinite(y.v[q])) fin = false;
+                rv.add("outcome", fin ? "finite" : "nonfinite");
+                res.fail(rv);
             }
         }
     }
